@@ -9,11 +9,11 @@ use crate::driver::AnyFlow;
 use crate::engine::{guarded, show, Report, Tier, Violation};
 use crate::refmodel::framing::{after, decide, After, Framing};
 
-pub const RULE: &str = "full product, no pruning: request method (9) x status 100..=999 (900) x response version {1.0,1.1} x Content-Length {absent,0,7,18446744073709551615,abc,-1,4294967296,20-character zero-padded 7,2^64,2^64+3,empty value} x Transfer-Encoding {absent,chunked,Chunked,CHUNKED,'gzip, chunked','gzip,chunked','chunked,' 'gzip, chunked, ,' ', chunked' (empty list elements around the coding),gzip,identity,'gzip,' (empty list element),'' (empty value),chunk} = 1 960 200 cells in the plain context (every third status additionally carries empty-valued fields ahead of the framing headers) ; in addition the same product under three contexts that must not influence the decision - response Connection: close, response Connection: keep-alive, and a 'loaded' exchange (HTTP/1.0 request where the method allows, request connection: close, body methods with an Expect handshake refused by this very head, response Connection: close), and 'refused' (every method, body-less ones with send-body-despite-method, announcing a body with Expect: 100-continue that this very head refuses) , and 'after-103' (an interim 103 Early Hints response was handed out by the same flow / call just before) - about 14 million cells in all, x entry points {Flow::try_response+proceed+body_mode, Call::try_response+into_body}; each cell also reads a probe body with trailing bytes to confirm the decided framing is the one applied. distinct = distinct (method, status class, version, CL, TE, decision) cells";
+pub const RULE: &str = "full product, no pruning: request method (9) x status 100..=999 (900) x response version {1.0,1.1} x Content-Length {absent,0,7,18446744073709551615,abc,-1,4294967296,20-character zero-padded 7,2^64,2^64+3,empty value} x Transfer-Encoding {absent,chunked,Chunked,CHUNKED,'gzip, chunked','gzip,chunked','chunked,' 'gzip, chunked, ,' ', chunked' (empty list elements around the coding),gzip,identity,'gzip,' (empty list element),'' (empty value),chunk, the word chunked with a no-break space before it / an ideographic space after it (Unicode white space is not optional white space)} = 2 851 200 cells in the plain context (every third status additionally carries empty-valued fields ahead of the framing headers; the Transfer-Encoding field comes before the Content-Length field for odd statuses and after it for even ones, the other way round in three of the contexts) ; in addition the same product under three contexts that must not influence the decision - response Connection: close, response Connection: keep-alive, and a 'loaded' exchange (HTTP/1.0 request where the method allows, request connection: close, body methods with an Expect handshake refused by this very head, response Connection: close), and 'refused' (every method, body-less ones with send-body-despite-method, announcing a body with Expect: 100-continue that this very head refuses) , and 'after-103' (an interim 103 Early Hints response was handed out by the same flow / call just before) - about 16 million cells in all, x entry points {Flow::try_response+proceed+body_mode, Call::try_response+into_body}; each cell also reads a probe body with trailing bytes to confirm the decided framing is the one applied. distinct = distinct (method, status class, version, CL, TE, decision) cells";
 
 const METHODS: [&str; 9] = ["GET", "HEAD", "POST", "PUT", "DELETE", "CONNECT", "OPTIONS", "TRACE", "PATCH"];
 const CLS: [Option<&str>; 11] = [None, Some("0"), Some("7"), Some("18446744073709551615"), Some("abc"), Some("-1"), Some("4294967296"), Some("00000000000000000007"), Some("18446744073709551616"), Some(""), Some("18446744073709551619")];
-const TES: [Option<&str>; 14] = [None, Some("chunked,"), Some("gzip, chunked, ,"), Some(", chunked"), Some("chunked"), Some("Chunked"), Some("CHUNKED"), Some("gzip, chunked"), Some("gzip,chunked"), Some("gzip"), Some("identity"), Some("gzip,"), Some(""), Some("chunk")];
+const TES: [Option<&str>; 16] = [None, Some("chunked,"), Some("gzip, chunked, ,"), Some(", chunked"), Some("chunked"), Some("Chunked"), Some("CHUNKED"), Some("gzip, chunked"), Some("gzip,chunked"), Some("gzip"), Some("identity"), Some("gzip,"), Some(""), Some("chunk"), Some("\u{a0}chunked"), Some("chunked\u{3000}")];
 
 /// Exchange contexts that must NOT influence the framing decision or the successor state.
 /// plain: GET-like request, no Connection header on the response.
@@ -25,7 +25,9 @@ const CTXS: [&str; 6] = ["plain", "conn-close", "keep-alive", "loaded", "refused
 const CTX_STATUSES: [u16; 24] = [100, 101, 199, 200, 201, 204, 205, 299, 300, 301, 302, 303, 304, 305, 307, 308, 399, 400, 404, 499, 500, 599, 600, 999];
 
 fn head_bytes_ctx(status: u16, v11: bool, cl: Option<&str>, te: Option<&str>, ctx: &str) -> Vec<u8> {
-    let mut h = head_bytes(status, v11, cl, te);
+    // the order of the two framing fields alternates with the status and is reversed in three of the contexts
+    let flip = matches!(ctx, "conn-close" | "refused" | "after-103");
+    let mut h = head_bytes_ordered(status, v11, cl, te, (status % 2 == 1) != flip);
     let conn = match ctx {
         "conn-close" | "loaded" | "refused" => "Connection: close\r\n\r\n",
         "keep-alive" => "Connection: keep-alive\r\n\r\n",
@@ -36,17 +38,25 @@ fn head_bytes_ctx(status: u16, v11: bool, cl: Option<&str>, te: Option<&str>, ct
     h
 }
 
-fn head_bytes(status: u16, v11: bool, cl: Option<&str>, te: Option<&str>) -> Vec<u8> {
+/// `te_first`: the Transfer-Encoding field precedes the Content-Length field.
+fn head_bytes_ordered(status: u16, v11: bool, cl: Option<&str>, te: Option<&str>, te_first: bool) -> Vec<u8> {
     let mut h = format!("HTTP/1.{} {} X\r\n", if v11 { 1 } else { 0 }, status);
     // an empty-valued field ahead of the framing headers (must not hide them): on every third status
     if status % 3 == 0 {
         h.push_str("X-Empty:\r\nServer: \r\n");
     }
+    if te_first {
+        if let Some(t) = te {
+            h.push_str(&format!("Transfer-Encoding: {}\r\n", t));
+        }
+    }
     if let Some(c) = cl {
         h.push_str(&format!("Content-Length: {}\r\n", c));
     }
-    if let Some(t) = te {
-        h.push_str(&format!("Transfer-Encoding: {}\r\n", t));
+    if !te_first {
+        if let Some(t) = te {
+            h.push_str(&format!("Transfer-Encoding: {}\r\n", t));
+        }
     }
     h.push_str("\r\n");
     h.into_bytes()
